@@ -34,6 +34,14 @@ Definition read_map_unfixed : reader (list (N * list N)) :=
     bind (alloc (N.max len MAP_PREALLOC * ENTRY))
       (fun _ => fun b => read_entries (S (length b)) len [] b)).
 
+(* the constant of the allocation bound: one read chunk; for the map decoder
+   also the capped pre-allocation of 65536 entries *)
+Definition kind_const (k : kind) : N :=
+  match k with
+  | KMap | KState => CHUNK + MAP_PREALLOC * ENTRY
+  | _ => CHUNK
+  end.
+
 (* ------------------------------------------------------------------ *)
 (* whole files (src/store.rs) *)
 
